@@ -587,6 +587,28 @@ func (d ServicesData) analyze(service *expr.ServiceExpr) *Data {
 
 		// A function to collect user types from an error expression
 		recordError := func(er *expr.ErrorExpr) {
+			if ut, ok := er.Type.(expr.UserType); ok && er.Type != expr.ErrorResult {
+				if _, ok := seen[ut.ID()]; ok {
+					// The error type has already been collected as the
+					// type of an attribute of a payload or result: it
+					// still needs the error methods.
+					isErr := false
+					for _, et := range errTypes {
+						if et.Type.ID() == ut.ID() {
+							isErr = true
+							break
+						}
+					}
+					if !isErr {
+						for _, t := range types {
+							if t.Type.ID() == ut.ID() {
+								errTypes = append(errTypes, t)
+								break
+							}
+						}
+					}
+				}
+			}
 			errTypes = append(errTypes, collectTypes(er.AttributeExpr, scope, seen)...)
 			if er.Type == expr.ErrorResult {
 				if _, ok := seenErrors[er.Name]; ok {
